@@ -47,6 +47,27 @@ def run(idx, rep, tier):
         if got != want or ys != [w[1] for w in want]:
             bad = bad or f"members run {ran} (failed {sorted(failed)}): appended {got}, yielded {ys}; documented: each yielded line is first appended to its own member's result ({want})"
     rep.check(bad is None, "R3", f"{fi.file}::CsvPaths.next_paths collects what it yields (collect=True)", bad or f"{len(paths)} paths", K.where(fi, fi.node))
+    # breadth-first preparation: reset → name the run → start_run → one Result per member (own csvpath, own index) → add_named_result
+    fpz = idx.method("CsvPaths", "_prep_csvpath_results")
+    rep.analysed(fpz)
+    made = []
+    it = Interp(idx, types={"self": "CsvPaths"}, unknown_calls="residual", inline_all={"CsvPaths"},
+                domains={"self.current_run_time": [Residual("RUNTIME")]},
+                handlers={"self.clear_run_coordination": lambda i, c, r, a, k: i.record_call("clear"), "self.run_time_str": lambda i, c, r, a, k: (i.record_call("name"), "RUNDIR")[1],
+                          "self.results_manager.start_run": lambda i, c, r, a, k: i.record_call("start_run", dict(k)),
+                          "Result": lambda i, c, r, a, k: (made.append(dict(k)), i.record_call("Result"), Obj(f"res{len(made) - 1}"))[2],
+                          "self.results_manager.add_named_result": lambda i, c, r, a, k: i.record_call("add", a[0])})
+    objs = [[Obj("cp0"), ["l0"]], [Obj("cp1"), ["l1"]]]
+    psz = it.run_all(fpz, args={"csvpath_objects": objs, "filename": "F", "pathsname": "P"})
+    ev = [kk for k, kk, v in psz[0].trace if k == "call" and kk in ("clear", "name", "start_run", "Result", "add")] if len(psz) == 1 else None
+    okz = ev == ["clear", "name", "start_run", "Result", "add", "Result", "add"]
+    if okz:
+        sr = psz[0].calls("start_run")[0][1]
+        okz = sr == {"run_dir": "RUNDIR", "pathsname": "P", "filename": "F"}
+        for j, kw in enumerate(made):
+            okz = okz and kw.get("csvpath") == Obj(f"cp{j}") and kw.get("run_index") == j and kw.get("run_dir") == "RUNDIR" and kw.get("by_line") is True and kw.get("paths_name") == "P" and kw.get("file_name") == "F"
+        fin = psz[0].result
+    rep.check(okz, "R3", f"{fpz.file}::CsvPaths._prep_csvpath_results protocol", f"events {ev}, results {made}", K.where(fpz, fpz.node))
     # collect_paths: the member collects into its own result's line spooler, and its unmatched lines are handed to the result
     fi, paths = RM.serial_rows(idx, "collect_paths")
     bad = None
@@ -233,6 +254,24 @@ def r5(idx, rep):
     fw = idx.method("ResultSerializer", "_save")
     ws = [unparse(c) for c in walk_no_nested(fw.node) if isinstance(c, ast.Call) and call_name(c) in ("writer", "_csv_writer")]
     rep.check(len(ws) == 2 and all(x.startswith("self._csv_writer(") for x in ws), "R5", f"{fw.file}::ResultSerializer._save uses the member dialect for data.csv and unmatched.csv", f"{ws}", K.where(fw, fw.node))
+    seen = []
+
+    def h_writer(i, c, r, a, k):
+        seen.append(dict(k))
+        return Obj("w")
+
+    it = Interp(idx, types={"self": "ResultSerializer"}, unknown_calls="residual", isinstance_oracle=lambda i, a, c: False,
+                inline={"ResultSerializer._save", "ResultSerializer._csv_writer", "ResultSerializer._has_printouts"},
+                handlers={"open": lambda i, c, r, a, k: Obj("f"), "json.dump": lambda i, c, r, a, k: None, "csv.writer": h_writer, ".writerows": lambda i, c, r, a, k: None,
+                          ".write": lambda i, c, r, a, k: None, "os.path.join": lambda i, c, r, a, k: "/".join(str(x) for x in a), "self.get_instance_dir": lambda i, c, r, a, k: "DIR",
+                          "RuntimeDataCollector.collect": lambda i, c, r, a, k: None, "result.get_printouts": lambda i, c, r, a, k: {}})
+    st = {"result.csvpath.delimiter": ";", "result.csvpath.quotechar": "'", "result.lines": [["a"]], "result.unmatched": [["u"]], "result.errors": [],
+          "result.csvpath": Obj("CP"), "CP.delimiter": ";", "CP.quotechar": "'", "CP.metadata": {}, "result.variables": {}}
+    fs_, pss = K.sym_result(idx, "ResultSerializer", "save_result", args={"result": Obj("result")}, store=st)
+    pss = it.run_all(fs_, args={"result": Obj("result")}, store=st)
+    okd = len(pss) == 1 and pss[0].result[0] == "return" and len(seen) == 2 and all(kw == {"delimiter": ";", "quotechar": "'"} for kw in seen)
+    rep.check(okd, "R5", f"{fs_.file}::ResultSerializer.save_result writes data files in the member's dialect (in context)",
+              f"csv writers created with {seen} for a member with delimiter ';' and quotechar \"'\"", K.where(fs_, fs_.node))
     fc = idx.method("ResultSerializer", "_csv_writer")
     w = [c for c in walk_no_nested(fc.node) if isinstance(c, ast.Call) and call_name(c) == "writer" and c.keywords]
     kw2 = {k.arg: unparse(k.value) for k in w[0].keywords} if w else None
@@ -287,6 +326,14 @@ def r6(idx, rep):
     want = sorted(["data.csv", "meta.json", "unmatched.csv", "printouts.txt", "errors.json", "vars.json"])
     rep.check(names == want, "R6", f"{ff.file}::ResultRegistrar.file_fingerprints coverage", f"fingerprints cover {names}, documented {want}", K.where(ff, ff.node))
     from . import store_model as SMo
+    fsx = [SMo.MFS()]
+    present = {"data.csv": "a,b\n", "meta.json": "{}", "errors.json": "[]", "vars.json": "{}"}
+    for nm, c in present.items():
+        fsx[0].put(f"INST/{nm}", c)
+    ffp, psf = K.sym_result(idx, "ResultRegistrar", "file_fingerprints", handlers=SMo.handlers(fsx), inline={"ResultRegistrar._fingerprint"}, store={"self.result_path": "INST"})
+    wantfp = {nm: SMo.MFS.sha(c) for nm, c in present.items()}
+    rep.check(len(psf) == 1 and psf[0].result == ("return", wantfp), "R6", f"{ffp.file}::ResultRegistrar.file_fingerprints table",
+              f"{psf[0].result if psf else None}; documented: sha256 of each member file that exists ({sorted(wantfp)})", K.where(ffp, ffp.node))
     fsb = [SMo.MFS()]
     fsb[0].put("D/data.csv", "a,b\n1,2\n")
     fp, ps = K.sym_result(idx, "ResultRegistrar", "_fingerprint", args={"path": "D/data.csv"}, handlers=SMo.handlers(fsb))
